@@ -634,6 +634,10 @@ def check(prog, rep):
     cv = prog.module('convolution').funcs.get('convolution_2d')
     if cv is not None:
         check_dispatch_passthrough(prog, rep, 'F7-pass', cv)
+    from ..sharedrules import check_values_keep_dtype
+    if m.funcs.get('mean') is not None:
+        check_values_keep_dtype(prog, rep, 'F2-dtype', m.funcs['mean'])
+    rep.floor('F2-dtype', 1)
     rep.floor('F7-pass', 5)
     rep.floor('H1', 10)
     rep.floor('F1', 6)
